@@ -62,6 +62,9 @@ type HarnessResult struct {
 	Wall       time.Duration
 	TimedOut   bool
 	Watchdog   int // queries on which a back end ignored its time limit and was killed (answered by the other back end)
+	CrossCompared int      // check-sat answers of worker 0's stream re-decided by a third solver
+	CrossDisagree []string // disagreements between two definite answers
+	CrossNote     string
 	StoppedEarly bool // a counterexample was confirmed natively during the exploration, which then ended
 	Remaining  int
 	Violations []Violation
@@ -119,6 +122,7 @@ func explore(ld *Loaded, spec HarnessSpec, tier string, seed int64, workers int,
 		sv := newSolverPair(spec.Profile, tier, seed)
 		if logSMT != "" && w == 0 {
 			f, _ := os.Create(logSMT)
+			sv.logLeft = 5000
 			sv.log = f
 		}
 		solvers = append(solvers, sv)
